@@ -621,6 +621,37 @@ AppendT(st, s, dbs, schema) ==
                { [ns |-> NsJoin(p[1].ns, p[2].ns), rows |-> strip(p[1].rows) \o strip(p[2].rows)]
                  : p \in { q \in st.W[d] \X r0.W[d] : NsJoin(q[1].ns, q[2].ns) # "clash" } }] ]
 
+\* loop (step): the rows of the relation and of every relation obtained by applying the step
+\* pipeline again, until a step returns no rows (the book's pseudo-code):
+\*     result = []; current = initial; while current is not empty: result += current; current = step(current)
+\* Given a meaning for step pipelines made of filter / select / derive (row-wise steps: an empty
+\* relation stays empty, so all database instances can be iterated together), with one world per
+\* instance, and when the iteration ends within LoopBound rounds; otherwise nothing is said.
+LoopBound == 6
+RowWise(pipe) == \A i \in Idx(pipe) : pipe[i].op \in {"filter", "select", "derive"}
+AllEmpty(st) == \A d \in Idx(st.W) : \A w \in st.W[d] : w.rows = <<>>
+OneWorld(st) == \A d \in Idx(st.W) : Cardinality(st.W[d]) = 1
+TheWorld(st, d) == CHOOSE w \in st.W[d] : TRUE
+RECURSIVE LoopRounds(_, _, _, _, _, _)
+\* acc: per instance the rows gathered so far; result: [ok, acc, loose]
+LoopRounds(cur, acc, n, pipe, dbs, schema) ==
+  IF AllEmpty(cur) THEN [ok |-> TRUE, acc |-> acc, loose |-> cur.loose]
+  ELSE IF n = 0 THEN [ok |-> FALSE, acc |-> acc, loose |-> cur.loose]
+  ELSE LET acc2 == [d \in Idx(cur.W) |-> acc[d] \o [i \in Idx(TheWorld(cur, d).rows) |-> [v |-> TheWorld(cur, d).rows[i].v, key |-> <<>>]]]
+           nxt0 == RunPipe([cur EXCEPT !.dirs = <<>>], pipe, dbs, schema)
+       IN IF nxt0.status # "ok" \/ ~OneWorld(nxt0) \/ Len(nxt0.frame) # Len(cur.frame)
+            THEN [ok |-> FALSE, acc |-> acc2, loose |-> cur.loose]
+            \* the next round sees the step's rows under the names of the initial relation
+            ELSE LoopRounds([nxt0 EXCEPT !.frame = cur.frame], acc2, n - 1, pipe, dbs, schema)
+Loop(st, s, dbs, schema) ==
+  IF ~RowWise(s.pipe) \/ ~OneWorld(st) \/ st.grouped THEN Unsup(st)
+  ELSE LET r == LoopRounds(st, [d \in Idx(st.W) |-> <<>>], LoopBound, s.pipe, dbs, schema) IN
+       IF ~r.ok THEN Unsup(st)
+       ELSE [ st EXCEPT
+              !.dirs = <<>>, !.osort = FALSE,
+              !.loose = st.loose \/ r.loose,
+              !.W = [d \in Idx(st.W) |-> { [ns |-> "any", rows |-> r.acc[d]] }] ]
+
 \* `from x` where x is a let-bound relation (let x = (...), `... | into x`,
 \* module m { let x = ... } referred to as m.x): the relation the named
 \* pipeline denotes, evaluated with the declarations that precede it; it keeps
@@ -707,6 +738,7 @@ ApplyStep(st, s0, dbs, schema) ==
          [] s.op = "window"    -> Window(st, s, dbs, schema)
          [] s.op = "join"      -> Join(st, s, dbs, schema)
          [] s.op = "append"    -> AppendT(st, s, dbs, schema)
+         [] s.op = "loop"      -> Loop(st, s, dbs, schema)
          \* scope-breaking steps (C10): a call with a surplus positional argument,
          \* an unknown named argument, a scalar where a relation is required or
          \* a relation where a scalar is required.  s.kind names the breakage.
